@@ -1,4 +1,6 @@
-import Unsized.MachineNodeStr
+import Unsized.MachineNodeMap
+import Unsized.MachineNodeUlist
+import Unsized.MachineNodeUget
 import Unsized.MachineRun
 /-!
 # Refinement of whole cases: `node_refines`, the owned-model state machine `stepV`, the invariant
@@ -18,8 +20,11 @@ def genericOp : Op → Bool
 def coveredShape : Shape → Bool
   | .fixed _ => true
   | .list _ _ => true
+  | .set _ _ => true
+  | .map _ _ _ => true
   | .str _ => true
   | .rem => true
+  | .ulist _ => true
   | .struct _ _ => true
   | .enum _ _ => true
   | _ => false
@@ -48,8 +53,14 @@ theorem node_refines {s v p t u m} (F : Focus s v p t u m) (c : Calm m) (op : Op
     cases t <;> simp [coveredShape] at hc <;> cases u <;> simp only [valid, Bool.false_eq_true] at hv
     · exact fixed_refines F c op
     · exact list_refines F c op
+    · exact set_refines F c op
+    · exact map_refines F c op
     · exact str_refines F c op
     · exact rem_refines F c op
+    · -- ulist (b-proof-ulist: all ops but `uget`; b-proof-map: `uget`)
+      by_cases hu : ∃ i, op = .uget i
+      · obtain ⟨i, rfl⟩ := hu; exact ulist_uget_refines F c i
+      · exact ulist_refines F c op (fun i h => hu ⟨i, h⟩)
     · exact struct_refines F c op
     · exact enum_refines F c op
 
@@ -148,12 +159,10 @@ theorem step_inv (s : Shape) (vs : VState) (ms : State) (inv : Inv s vs ms) (cmd
       simp only [Bool.and_eq_true, bne_iff_ne, ne_eq, Bool.not_eq_true'] at hres
       cases e <;> simp only [] at href <;> first
         | exact absurd rfl hres.1
-        | (obtain ⟨m', hm', hsame⟩ := href
-           have := hsame hres.2
-           subst this
-           rw [hm']
-           exact ⟨rfl, inv, rfl⟩)
-
+        | (rcases href with hc | hm'
+           · rw [hres.2] at hc; cases hc
+           · rw [hm']
+             exact ⟨rfl, inv, rfl⟩)
 
 /-- Run a case on the machine: final state and the outcome of every line. -/
 def runM (s : Shape) : State → List Cmd → State × List (Except Err Ret)
